@@ -6,6 +6,7 @@ specification's, and frame lemmas (which fields the publish machinery touches).
 -/
 import Mqtt.Model.Broker
 import Mqtt.Spec.Broker
+import Mqtt.Proofs.BrokerConnect
 
 namespace Mqtt.Proofs.BrokerLife
 open Mqtt.Iface.Broker Mqtt.Model.Broker
@@ -365,6 +366,25 @@ def unacceptedOn (c : Nat) : Ev → Bool
   | .close c' => c' == c
   | _ => false
 
+/-- a first packet that is not an acceptable CONNECT takes nobody over -/
+theorem takeOver_refused (b : B) (f : First) (a : Bool) (h : accepts f a = false) : takeOver b f a = (b, []) := by
+  rcases Mqtt.Proofs.Connect.takeOver_cases b f a with h0 | ⟨req, rfl, hd, rfl, _, _⟩
+  · exact h0
+  · exfalso
+    rw [connectDecode_eq] at hd
+    simp only [accepts, Bool.and_true] at h
+    cases h1 : levelOk req <;> cases h2 : flagsBad req <;> cases h3 : idBad req <;> simp [h1, h2, h3] at hd h
+
+/-- an accepted CONNECT takes over the live connections that carry its (supplied) client identifier -/
+theorem takeOver_accepted (b : B) (req : Connect) (a : Bool) (h : accepts (.connect req) a = true) :
+    takeOver b (.connect req) a =
+      if req.clientId.isEmpty then (b, []) else stopAll b (sameClient b req.clientId) := by
+  simp only [accepts, Bool.and_eq_true, Bool.not_eq_true'] at h
+  obtain ⟨⟨⟨h1, h2⟩, h3⟩, h4⟩ := h
+  have hd : connectDecode req = .inr true := by rw [connectDecode_eq]; simp [h1, h2, h3]
+  unfold takeOver
+  simp only [hd, h4, Bool.not_true, Bool.false_or]
+
 /-- an output addressed to `c` that a refusal can produce -/
 def refusalOut (c : Nat) (o : Out) : Prop := o = .closed c ∨ ∃ k, k ≠ 0 ∧ o = .send c (.connack false k)
 
@@ -374,7 +394,8 @@ theorem step_unaccepted (b : B) (c : Nat) (e : Ev) (hd : b.alive c = false) (h :
   | first c' f a =>
     simp only [unacceptedOn, Bool.and_eq_true, beq_iff_eq, Bool.not_eq_true'] at h
     obtain ⟨rfl, ha⟩ := h
-    simp only [step]
+    rw [Mqtt.Proofs.Connect.step_first_eq, Mqtt.Proofs.Connect.connect_eq, takeOver_refused b f a ha]
+    simp only [List.nil_append]
     rcases first_refused b c' f a ha with h1 | ⟨k, hk, h1⟩
     · rw [h1]; exact ⟨rfl, by simp [refusalOut]⟩
     · rw [h1]
